@@ -35,12 +35,13 @@ structure EntryOK (p : Bytes) (e : Blob) (sz : Nat) : Prop where
   size : sz = pack_plainEntrySize ∨ sz = pack_entrySize
 
 theorem parseHeaderEntry_cases (p : Bytes) :
-    (∃ e, parseHeaderEntry p = .err e) ∨ (∃ e sz, parseHeaderEntry p = .ok (e, sz) ∧ EntryOK p e sz) := by
+    (parseHeaderEntry p = .err .entryShort ∨ parseHeaderEntry p = .err .invalidType) ∨
+    (∃ e sz, parseHeaderEntry p = .ok (e, sz) ∧ EntryOK p e sz) := by
   obtain ⟨h4, hplain, hentry, _⟩ := facts_layout
   unfold parseHeaderEntry
   simp only
   by_cases h : p.length < pack_plainEntrySize
-  · left; simp [h]
+  · left; left; simp [h]
   · simp only [h, if_false]
     cases p with
     | nil => simp only [List.length_nil] at h; omega
@@ -53,7 +54,7 @@ theorem parseHeaderEntry_cases (p : Bytes) :
         by_cases t23 : tpe = 2 ∨ tpe = 3
         · simp only [t23, if_true]
           by_cases hl : (tpe :: rest).length < pack_entrySize
-          · left; exact ⟨.entryShort, by rw [if_pos hl]⟩
+          · left; left; rw [if_pos hl]
           · rw [if_neg hl]
             have hlen2 : 4 ≤ ((tpe :: rest).drop 5).length := by simp only [List.length_drop]; omega
             rw [slice?_ok _ 0 4 (by omega) hlen2, from?_ok _ 4 hlen2]
@@ -68,7 +69,7 @@ theorem parseHeaderEntry_cases (p : Bytes) :
           by_cases t23 : tpe = 2 ∨ tpe = 3
           · simp only [t23, if_true]
             by_cases hl : (tpe :: rest).length < pack_entrySize
-            · left; exact ⟨.entryShort, by rw [if_pos hl]⟩
+            · left; left; rw [if_pos hl]
             · rw [if_neg hl]
               have hlen2 : 4 ≤ ((tpe :: rest).drop 5).length := by simp only [List.length_drop]; omega
               rw [slice?_ok _ 0 4 (by omega) hlen2, from?_ok _ 4 hlen2]
@@ -77,16 +78,16 @@ theorem parseHeaderEntry_cases (p : Bytes) :
           · simp only [t23, if_false]
             right
             exact ⟨_, _, rfl, ⟨by omega, by omega, Or.inr rfl, copyID_length _, unle32_lt _, by simp, rfl, Or.inl rfl⟩⟩
-        · left; simp [t13]
+        · left; right; simp [t13]
 
 theorem parseHeaderEntry_no_panic (p : Bytes) : parseHeaderEntry p ≠ .panic := by
-  rcases parseHeaderEntry_cases p with ⟨e, h⟩ | ⟨e, sz, h, _⟩ <;> simp [h]
+  rcases parseHeaderEntry_cases p with (h | h) | ⟨e, sz, h, _⟩ <;> simp [h]
 
 /-- all entries well formed -/
 def AllWF (bs : List Blob) : Prop := ∀ b ∈ bs, WF b
 
 theorem parseLoop_cases (fuel : Nat) (p : Bytes) (pos : Nat) (hf : p.length ≤ fuel) :
-    (∃ e, parseLoop fuel p pos = .err e) ∨
+    (parseLoop fuel p pos = .err .entryShort ∨ parseLoop fuel p pos = .err .invalidType) ∨
     (∃ es, parseLoop fuel p pos = .ok es ∧ AllWF es ∧ withOffsets pos es = es) := by
   induction fuel generalizing p pos with
   | zero =>
@@ -98,8 +99,9 @@ theorem parseLoop_cases (fuel : Nat) (p : Bytes) (pos : Nat) (hf : p.length ≤ 
     | nil => right; exact ⟨[], by simp [parseLoop], (fun b hb => by cases hb), rfl⟩
     | cons x xs =>
       unfold parseLoop
-      rcases parseHeaderEntry_cases (x :: xs) with ⟨e, h⟩ | ⟨e, sz, h, hok⟩
-      · left; exact ⟨e, by simp [h]⟩
+      rcases parseHeaderEntry_cases (x :: xs) with (h | h) | ⟨e, sz, h, hok⟩
+      · left; left; simp [h]
+      · left; right; simp [h]
       · simp only [h]
         rw [from?_ok _ sz hok.le]
         simp only
@@ -108,8 +110,9 @@ theorem parseLoop_cases (fuel : Nat) (p : Bytes) (pos : Nat) (hf : p.length ≤ 
           simp only [List.length_drop]
           simp only [List.length_cons] at hf ⊢
           omega
-        rcases ih ((x :: xs).drop sz) (pos + e.length) hlen with ⟨e', h'⟩ | ⟨es, h', hwf, hoff⟩
-        · left; exact ⟨e', by simp [h']⟩
+        rcases ih ((x :: xs).drop sz) (pos + e.length) hlen with (h' | h') | ⟨es, h', hwf, hoff⟩
+        · left; left; simp [h']
+        · left; right; simp [h']
         · right
           refine ⟨{ e with offset := pos } :: es, by simp [h'], ?_, ?_⟩
           · intro b hb
@@ -120,7 +123,7 @@ theorem parseLoop_cases (fuel : Nat) (p : Bytes) (pos : Nat) (hf : p.length ≤ 
 
 theorem parseLoop_no_panic (fuel : Nat) (p : Bytes) (pos : Nat) (hf : p.length ≤ fuel) :
     parseLoop fuel p pos ≠ .panic := by
-  rcases parseLoop_cases fuel p pos hf with ⟨e, h⟩ | ⟨es, h, _⟩ <;> simp [h]
+  rcases parseLoop_cases fuel p pos hf with (h | h) | ⟨es, h, _⟩ <;> simp [h]
 
 /-- the loop inverts `makeHeader` on well-formed blobs -/
 theorem parseLoop_makeHeader (bs : List Blob) (hwf : AllWF bs) (h : Bytes) (hm : makeHeader bs = some h)
